@@ -168,6 +168,7 @@ def outside(ctx):
         "model_says_crash_by_class": {},
         "model_does_not_cover": {},                    # inputs not translated to the model at all, by reason
         "unmemoised_chain_crashed": 0,                 # the chain of the THEOREMS (un-memoised overlap search) ran out of fuel
+        "unmemoised_search_not_run_unranked": 0,       # rankOkB false (fragment cycle / too deep): un-memoised search not run
         "verdict_supplied_by_memoised_search": 0,      # ... and the verdict compared is the memoised search's
         "memo_crosscheck_done": 0,                     # memoised verdict = un-memoised verdict (both ran)
         "memo_crosscheck_counts_equal": 0,
@@ -190,7 +191,9 @@ def memo_crosscheck(ctx, ans, detail):
                  "false, the translation to the model is wrong", dict(detail, checks=ck), kind="correspondence")
     if not isinstance(m, dict):
         return
-    if m.get("plain_crash") is not None:
+    if m.get("plain_crash") == "not-run:unranked":
+        o["unmemoised_search_not_run_unranked"] += 1
+    elif m.get("plain_crash") is not None:
         o["unmemoised_chain_crashed"] += 1
     if m.get("supplied"):
         o["verdict_supplied_by_memoised_search"] += 1
